@@ -27,6 +27,10 @@ declare -A DEST=( [C01-a]=tests/seed_demo.rs [C03-a]=tests/seed_c03_demo.rs [C05
  [C05-d]=tests/c05_demo.rs [C14-c]=crates/polytune-server-core/tests/c14_demo.rs [C16-c]=crates/polytune-server-core/tests/c16_demo.rs
  [C13-d]=crates/polytune-server-core/tests/c13_demo.rs [C15-d]=crates/polytune-server-core/tests/c15_demo.rs
  [C17-d]=crates/polytune-server-core/tests/c17_demo.rs
+ [C01-d]=tests/seed_c01_d.rs [C09-d]=tests/c09_demo.rs [C12-d]=tests/c12_d_demo.rs [C19-d]=tests/c19_demo.rs [C04-c]=tests/seed_c04c_demo.rs
+ [C08-d]=tests/c08_dvalue.rs [C10-d]=tests/c10d_demo.rs [C18-d]=tests/c18_demo.rs [C03-d]=tests/c03d_demo.rs [C11-d]=tests/c11_demo.rs
+ [C02-d]=tests/seed_c02_demo.rs [C06-d]=tests/c06_demo.rs [C07-d]=tests/c07_demo.rs [C20-d]=tests/c20_demo.rs
+ [C16-d]=crates/polytune-server-core/tests/c16_demo.rs
  [C20-a]=MOD:src/transpose/seed_demo.rs:src/transpose.rs:seed_demo )
 names=${@:-$(ls -d /verif/seeded/*/ | xargs -n1 basename)}
 for s in $names; do
@@ -50,7 +54,7 @@ for s in $names; do
     esac
   }
   # (C20-b's demonstration drives the guarded verification wrappers)
-  if [ $s = C20-b ] || [ $s = C20-c ] || [ $s = C19-c ]; then DEMOFLAGS="--cfg polytune_verif --check-cfg cfg(polytune_verif)"; else DEMOFLAGS=""; fi
+  if [ $s = C20-b ] || [ $s = C20-c ] || [ $s = C19-c ] || [ $s = C10-d ] || [ $s = C03-d ] || [ $s = C06-d ] || [ $s = C20-d ]; then DEMOFLAGS="--cfg polytune_verif --check-cfg cfg(polytune_verif)"; else DEMOFLAGS=""; fi
   # with the change
   git apply $d/patch.diff || { echo "$s: PATCH DOES NOT APPLY" >> $LOG; continue; }
   if [ $server = 1 ]; then
